@@ -524,7 +524,7 @@ class CBInterp:
                             raise DomainError("array dimensioned twice or after use")
                         bs = [b[1] if b[0] == "d" else int(b[1], 16) for b in bounds]
                         self.arrays[kk] = {"bounds": bs, "data": {}, "implicit": False}
-            elif k in ("data", "rem", "clear", "tron", "troff", "onerr", "onbrk"):
+            elif k in ("data", "rem", "clear", "tron", "troff", "onerr", "onbrk", "empty"):
                 pass
             elif k == "poke":
                 a = self.num(s[1])
